@@ -83,43 +83,67 @@ fn spawn_worker() -> Worker {
     });
     Worker { child, rx }
 }
-/// runs the lines in a sandboxed worker process: a panic is caught inside the worker; an abort, stack
-/// overflow, out-of-memory kill or time-out ends the worker and is attributed to the case
-fn run_isolated(lines: &[String], per_case: Duration) -> Vec<String> {
-    let mut out = Vec::with_capacity(lines.len());
-    let mut w = spawn_worker();
-    for line in lines {
-        let sent = {
-            let si = w.child.stdin.as_mut().expect("stdin");
-            writeln!(si, "{line}").and_then(|_| si.flush()).is_ok()
-        };
-        let r = if sent {
-            match w.rx.recv_timeout(per_case) {
-                Ok(r) => Some(r),
-                Err(mpsc::RecvTimeoutError::Timeout) => {
-                    let _ = w.child.kill();
-                    let _ = w.child.wait();
-                    out.push("crash timeout".to_string());
-                    w = spawn_worker();
-                    continue;
-                }
-                Err(mpsc::RecvTimeoutError::Disconnected) => None,
+/// runs one line in the given worker; replaces the worker when the case kills it or times out
+fn run_one(w: &mut Worker, line: &str, per_case: Duration) -> String {
+    let sent = {
+        let si = w.child.stdin.as_mut().expect("stdin");
+        writeln!(si, "{line}").and_then(|_| si.flush()).is_ok()
+    };
+    let r = if sent {
+        match w.rx.recv_timeout(per_case) {
+            Ok(r) => Some(r),
+            Err(mpsc::RecvTimeoutError::Timeout) => {
+                let _ = w.child.kill();
+                let _ = w.child.wait();
+                *w = spawn_worker();
+                return "crash timeout".to_string();
             }
-        } else {
-            None
-        };
-        match r {
-            Some(r) => out.push(r),
-            None => {
-                let status = w.child.wait().ok();
-                out.push(format!("crash abort({})", status.map(|s| s.to_string()).unwrap_or_default().replace(' ', "_")));
-                w = spawn_worker();
-            }
+            Err(mpsc::RecvTimeoutError::Disconnected) => None,
+        }
+    } else {
+        None
+    };
+    match r {
+        Some(r) => r,
+        None => {
+            let status = w.child.wait().ok();
+            *w = spawn_worker();
+            format!("crash abort({})", status.map(|s| s.to_string()).unwrap_or_default().replace(' ', "_"))
         }
     }
-    let _ = w.child.kill();
-    let _ = w.child.wait();
-    out
+}
+/// runs the lines in sandboxed worker processes (several in parallel; every case is self-contained, results are
+/// reported in case order): a panic is caught inside the worker; an abort, stack overflow, out-of-memory kill or
+/// time-out ends the worker and is attributed to the case
+fn run_isolated(lines: &[String], per_case: Duration) -> Vec<String> {
+    use std::sync::atomic::{AtomicUsize, Ordering};
+    use std::sync::{Arc, Mutex};
+    let k = std::env::var("PM_WORKERS").ok().and_then(|v| v.parse::<usize>().ok()).unwrap_or_else(|| std::thread::available_parallelism().map(|n| n.get()).unwrap_or(4).min(12)).max(1);
+    let next = Arc::new(AtomicUsize::new(0));
+    let out: Arc<Mutex<Vec<Option<String>>>> = Arc::new(Mutex::new(vec![None; lines.len()]));
+    let lines: Arc<Vec<String>> = Arc::new(lines.to_vec());
+    let mut handles = Vec::new();
+    for _ in 0..k.min(lines.len().max(1)) {
+        let (next, out, lines) = (next.clone(), out.clone(), lines.clone());
+        handles.push(std::thread::spawn(move || {
+            let mut w = spawn_worker();
+            loop {
+                let i = next.fetch_add(1, Ordering::SeqCst);
+                if i >= lines.len() {
+                    break;
+                }
+                let r = run_one(&mut w, &lines[i], per_case);
+                out.lock().unwrap()[i] = Some(r);
+            }
+            let _ = w.child.kill();
+            let _ = w.child.wait();
+        }));
+    }
+    for h in handles {
+        let _ = h.join();
+    }
+    let v = out.lock().unwrap();
+    v.iter().map(|o| o.clone().unwrap_or_else(|| "crash lost".to_string())).collect()
 }
 
 fn main() {
